@@ -48,11 +48,11 @@ Proof.
 Qed.
 
 Example knot_continuity_eval_ex :
-  outputs_upto H3 H3 2 (bs_eval H3 H3 h_op h_e h_inv h_exp h_log h_Ad h_br h_add h_e h_smul false (Bideal 3) 3 ctrl_ex (1 # 2) (1 # 4) (3 # 4))
+  outputs_upto H3 H3 2 (bs_eval H3 H3 h_op h_e h_inv h_exp h_log h_Ad h_br h_add h_e h_smul (Bideal 3) 3 ctrl_ex (1 # 2) (1 # 4) (3 # 4))
   = outputs_upto H3 H3 2 (scale H3 H3 h_smul (1 # 4)
       (window_eval H3 H3 h_op h_e h_inv h_exp h_log h_Ad h_br h_add h_e h_smul (Bideal 3) 3 ctrl_ex 0 1%Q)).
 Proof.
-  apply (knot_continuity_eval H3 H3 h_op h_e h_inv h_exp h_log h_Ad h_br h_add h_e h_smul heisenberg_laws false 2 (Bideal 3) 3 ctrl_ex).
+  apply (knot_continuity_eval H3 H3 h_op h_e h_inv h_exp h_log h_Ad h_br h_add h_e h_smul heisenberg_laws 2 (Bideal 3) 3 ctrl_ex).
   - lia.
   - exact knot_shape_3.
   - reflexivity.
@@ -62,8 +62,8 @@ Proof.
 Qed.
 
 Example left_equivariance_ex :
-  bs_eval H3 H3 h_op h_e h_inv h_exp h_log h_Ad h_br h_add h_e h_smul false (Bideal 3) 3 (map (h_op (1, 2, 3)) ctrl_ex) (1 # 2) (1 # 4) (7 # 8)
-  = let '(g, w, a) := bs_eval H3 H3 h_op h_e h_inv h_exp h_log h_Ad h_br h_add h_e h_smul false (Bideal 3) 3 ctrl_ex (1 # 2) (1 # 4) (7 # 8) in
+  bs_eval H3 H3 h_op h_e h_inv h_exp h_log h_Ad h_br h_add h_e h_smul (Bideal 3) 3 (map (h_op (1, 2, 3)) ctrl_ex) (1 # 2) (1 # 4) (7 # 8)
+  = let '(g, w, a) := bs_eval H3 H3 h_op h_e h_inv h_exp h_log h_Ad h_br h_add h_e h_smul (Bideal 3) 3 ctrl_ex (1 # 2) (1 # 4) (7 # 8) in
     (h_op (1, 2, 3) g, w, a).
 Proof.
   apply (left_equivariance H3 H3 h_op h_e h_inv h_exp h_log h_Ad h_br h_add h_e h_smul heisenberg_laws). cbn. lia.
@@ -71,11 +71,11 @@ Qed.
 
 Example local_support_ex :
   let ctrl' := [(0, 0, 0); (1, 0, 0); (1, 2, 0); (0, 1, 3); (2, 2, 1); (7, 7, 7)] in
-  bs_eval H3 H3 h_op h_e h_inv h_exp h_log h_Ad h_br h_add h_e h_smul false (Bideal 3) 3 ctrl_ex (1 # 2) (1 # 4) (5 # 8)
-  = bs_eval H3 H3 h_op h_e h_inv h_exp h_log h_Ad h_br h_add h_e h_smul false (Bideal 3) 3 ctrl' (1 # 2) (1 # 4) (5 # 8).
+  bs_eval H3 H3 h_op h_e h_inv h_exp h_log h_Ad h_br h_add h_e h_smul (Bideal 3) 3 ctrl_ex (1 # 2) (1 # 4) (5 # 8)
+  = bs_eval H3 H3 h_op h_e h_inv h_exp h_log h_Ad h_br h_add h_e h_smul (Bideal 3) 3 ctrl' (1 # 2) (1 # 4) (5 # 8).
 Proof.
   intro ctrl'.
-  apply (local_support H3 H3 h_op h_e h_inv h_exp h_log h_Ad h_br h_add h_e h_smul false (Bideal 3) 3 ctrl_ex ctrl' 5 (1 # 2) (1 # 4) (5 # 8) h_e).
+  apply (local_support H3 H3 h_op h_e h_inv h_exp h_log h_Ad h_br h_add h_e h_smul (Bideal 3) 3 ctrl_ex ctrl' 5 (1 # 2) (1 # 4) (5 # 8) h_e).
   - reflexivity.
   - intros k Hk. do 6 (destruct k as [|k]; [try reflexivity; lia|]). destruct k; reflexivity.
   - vm_compute. right. lia.
